@@ -217,6 +217,43 @@ type Scenario struct {
 	Kind    string // valid | injected | history
 	Canon   string
 	SchemaS string
+	// serialisations taken when the scenario was generated, before any query ran: what the caller supplied
+	SchS   S
+	BlockS map[*schema.BlockSchema]S
+}
+
+// schemaS: the main schema as the caller supplied it
+func (s *Scenario) schemaS() S {
+	if s.SchS != nil {
+		return s.SchS
+	}
+	return bodySchemaS(s.Main.Schema)
+}
+
+// blockSchemaSnapshot: a block schema as the caller supplied it (schemas derived by the library are serialised live)
+func (s *Scenario) blockSchemaSnapshot(b *schema.BlockSchema) S {
+	if x, ok := s.BlockS[b]; ok {
+		return x
+	}
+	return blockSchemaS(b)
+}
+
+func snapshotBlocks(b *schema.BodySchema, out map[*schema.BlockSchema]S, depth int) {
+	if b == nil || depth > 6 {
+		return
+	}
+	for _, k := range b.Blocks {
+		if k == nil {
+			continue
+		}
+		if _, seen := out[k]; !seen {
+			out[k] = blockSchemaS(k)
+			snapshotBlocks(k.Body, out, depth+1)
+			for _, d := range k.DependentBody {
+				snapshotBlocks(d, out, depth+1)
+			}
+		}
+	}
 }
 
 type ScenarioOpts struct {
@@ -248,6 +285,9 @@ func genScenarios(r *rand.Rand, o ScenarioOpts) []*Scenario {
 	}
 	funcs := genFunctions(r)
 	src, decls := genConfig(r, sch, o.Inject)
+	schSnap := bodySchemaS(sch)
+	blockSnap := map[*schema.BlockSchema]S{}
+	snapshotBlocks(sch, blockSnap, 0)
 	mk := func(text string, kind string) *Scenario {
 		w := newWorld()
 		files := map[string]string{"main.tf": text}
@@ -260,7 +300,7 @@ func genScenarios(r *rand.Rand, o ScenarioOpts) []*Scenario {
 			o2, _ := genConfig(r, sch, false)
 			w.AddPath("other", sch, map[string]string{"o.tf": o2}, funcs)
 		}
-		return &Scenario{W: w, Main: pd, File: "main.tf", Src: []byte(text), Decls: decls, Kind: kind}
+		return &Scenario{W: w, Main: pd, File: "main.tf", Src: []byte(text), Decls: decls, Kind: kind, SchS: schSnap, BlockS: blockSnap}
 	}
 	kind := "valid"
 	if o.Inject {
